@@ -413,7 +413,153 @@ Finish   == /\ phase = "gen" /\ Len(doc) >= 1
 Next == AddBlock \/ Finish
 Spec == Init /\ [][Next]_vars
 
+-----------------------------------------------------------------------------
+(* Which directive kinds the canonical rendering of a document uses (C18)  *)
+
+SpecKinds(kw, sp, hdr) ==
+  {kw} \cup (IF sp.form = "child" THEN {"Body"} ELSE {}) \cup (IF hdr THEN {"Headers"} ELSE {})
+MethodKinds(m) ==
+  {m.verb} \cup (IF m.desc # "" THEN {"Description"} ELSE {}) \cup (IF m.tags # << >> THEN {"Tags"} ELSE {})
+  \cup (IF m.query # "" THEN {"Query"} ELSE {})
+  \cup (IF m.req.form # "none" THEN SpecKinds("Request", m.req, m.reqHeaders) ELSE {})
+  \cup UNION {SpecKinds("HTTP-response-code", m.resps[i].spec, m.resps[i].headers) : i \in 1..Len(m.resps)}
+RpcKinds(m) ==
+  {"Method"} \cup (IF m.desc # "" THEN {"Description"} ELSE {}) \cup (IF m.tags # << >> THEN {"Tags"} ELSE {})
+  \cup (IF m.params.k # "none" THEN {"Params"} ELSE {}) \cup (IF m.result.k # "none" THEN {"Result"} ELSE {})
+BlockKinds(b) ==
+  CASE b.t = "info"   -> {"INFO"} \cup (IF b.title # "" THEN {"Title"} ELSE {}) \cup (IF b.version # "" THEN {"Version"} ELSE {})
+                         \cup (IF b.desc # "" THEN {"Description"} ELSE {})
+    [] b.t = "server" -> {"SERVER", "BaseUrl"}
+    [] b.t = "type"   -> {"TYPE"}
+    [] b.t = "enum"   -> {"ENUM"}
+    [] b.t = "tag"    -> {"TAG"} \cup (IF b.desc # "" THEN {"Description"} ELSE {})
+    [] b.t = "url"    -> {"URL"} \cup (IF b.tags # << >> THEN {"Tags"} ELSE {}) \cup (IF b.pathdecl # << >> THEN {"Path"} ELSE {})
+                         \cup UNION {MethodKinds(b.methods[i]) : i \in 1..Len(b.methods)}
+    [] b.t = "method" -> MethodKinds(b.m)
+    [] b.t = "rpc"    -> {"URL", "Protocol"} \cup UNION {RpcKinds(b.methods[i]) : i \in 1..Len(b.methods)}
+KindsOf(d) == {"JSIGHT"} \cup UNION {BlockKinds(d[i]) : i \in 1..Len(d)}
+\* first block (0 = the JSIGHT line) that uses a kind of B
+FirstBanned(d, B) ==
+  IF "JSIGHT" \in B THEN 0
+  ELSE LET hit == {i \in 1..Len(d) : BlockKinds(d[i]) \cap B # {}}
+       IN IF hit = {} THEN -1 ELSE CHOOSE i \in hit : \A j \in hit : i <= j
+
+AllKinds == {"JSIGHT", "INFO", "Title", "Version", "Description", "SERVER", "BaseUrl", "URL", "GET", "POST", "PUT",
+             "PATCH", "DELETE", "Body", "Request", "HTTP-response-code", "Path", "Headers", "Query", "TYPE", "ENUM",
+             "MACRO", "PASTE", "INCLUDE", "Protocol", "Method", "Params", "Result", "TAG", "Tags"}
+
+-----------------------------------------------------------------------------
+(* Independence of a block (C20): removing it leaves a valid document and  *)
+(* nothing else refers to what it declares or shares its automatic tag     *)
+
+RemoveAt2(d, i) == SubSeq(d, 1, i - 1) \o SubSeq(d, i + 1, Len(d))
+BlockInters(d, i) == SelectSeq(Inters(d), LAMBDA e : e.bi = i)
+OtherInters(d, i) == SelectSeq(Inters(d), LAMBDA e : e.bi # i)
+Independent(d, i) ==
+  /\ Valid(RemoveAt2(d, i))
+  /\ d[i].t \in {"url", "method", "rpc"} =>
+        \* its interactions do not share an automatic tag or a path prefix with the others
+        /\ \A e \in Range(BlockInters(d, i)) : \A o \in Range(OtherInters(d, i)) : FirstSeg(e.path) # FirstSeg(o.path)
+        /\ d[i].t = "url" => d[i].pathdecl = << >>
+        \* and carry no explicit tags (a declared tag's entry lists its interactions)
+        /\ \A e \in Range(BlockInters(d, i)) : e.m.tags = << >> /\ e.urltags = << >>
+
+\* the catalog keys an entry list contributes
+CatKeys(c) ==
+  {<<"servers", c.servers[i].name>> : i \in 1..Len(c.servers)}
+  \cup {<<"userTypes", c.types[i].name>> : i \in 1..Len(c.types)}
+  \cup {<<"userEnums", c.enums[i].name>> : i \in 1..Len(c.enums)}
+  \cup {<<"tags", c.tags[i].name>> : i \in 1..Len(c.tags)}
+  \cup {<<"interactions", c.interactions[i].id>> : i \in 1..Len(c.interactions)}
+
+\* every block of these kinds may be removed from a valid document if it is independent
+Removable(d) == {i \in 1..Len(d) : d[i].t \in {"server", "type", "enum", "tag", "url", "method", "rpc"} /\ Independent(d, i)}
+
+-----------------------------------------------------------------------------
+(* Faults (C11): the applicable single-fault injections of a valid document *)
+
+NamedKinds == {"server", "type", "enum", "tag"}
+SingletonChildren(b) ==
+  CASE b.t = "info" -> (IF b.title # "" THEN {"Title"} ELSE {}) \cup (IF b.version # "" THEN {"Version"} ELSE {})
+                       \cup (IF b.desc # "" THEN {"Description"} ELSE {})
+    [] b.t = "tag"  -> (IF b.desc # "" THEN {"Description"} ELSE {})
+    [] b.t = "server" -> {"BaseUrl"}
+    [] b.t = "url"  -> (IF b.pathdecl # << >> THEN {"Path"} ELSE {})
+    [] b.t = "rpc"  -> {"Protocol"}
+    [] b.t = "method" -> (IF b.m.desc # "" THEN {"Description"} ELSE {}) \cup (IF b.m.query # "" THEN {"Query"} ELSE {})
+                         \cup (IF b.m.req.form = "child" THEN {"ReqBody"} ELSE {})
+                         \cup (IF b.m.reqHeaders /\ b.m.req.form # "none" THEN {"ReqHeaders"} ELSE {})
+                         \cup (IF \E k \in 1..Len(b.m.resps) : b.m.resps[k].spec.form = "child" THEN {"RespBody"} ELSE {})
+                         \cup (IF \E k \in 1..Len(b.m.resps) : b.m.resps[k].headers THEN {"RespHeaders"} ELSE {})
+    [] OTHER -> {}
+ReferencedTypes(d) == UNION {BodyRefs(b) : b \in AllBodies(d)}
+ReferencedEnums(d) == UNION {BodyEnums(b) : b \in AllBodies(d)}
+Fault(f, i, x) == [f |-> f, i |-> i, x |-> x]
+FaultChoices(d) ==
+  {Fault("dup_name", i, "") : i \in {j \in 1..Len(d) : d[j].t \in NamedKinds}}
+  \cup {Fault("dup_method", i, "") : i \in {j \in 1..Len(d) : d[j].t \in {"url", "method", "rpc"}}}
+  \cup {Fault("dup_url", i, "") : i \in {j \in 1..Len(d) : d[j].t \in {"url", "rpc"}}}
+  \cup {Fault("similar_path", i, "") : i \in {j \in 1..Len(d) : d[j].t \in {"url", "rpc"} /\ ParamsOf(d[j].path) # << >>}}
+  \cup UNION {{Fault("dup_child", i, c) : c \in SingletonChildren(d[i])} : i \in 1..Len(d)}
+  \cup {Fault("missing_param", i, "") : i \in {j \in 1..Len(d) : d[j].t \in NamedKinds \cup {"url", "rpc"}}}
+  \cup {Fault("undefined", i, "") : i \in {j \in 1..Len(d) :
+            \/ d[j].t = "type" /\ d[j].name \in ReferencedTypes(d)
+            \/ d[j].t = "enum" /\ d[j].name \in ReferencedEnums(d)
+            \/ d[j].t = "tag"  /\ d[j].name \in UsedTags(d)}}
+  \cup {Fault("undefined_new", 0, x) : x \in {"type", "enum", "tag", "paste"}}
+  \cup {Fault("second_info", 0, "")}
+
+\* blocks at which a diagnostic for the fault may legitimately be located
+RefersTo(d, j, b) ==
+  LET bodies == IF d[j].t = "type" THEN {d[j].body}
+                ELSE UNION {BodiesOf(e) : e \in Range(BlockInters(d, j))}
+      tags   == UNION {Range(e.m.tags) \cup Range(e.urltags) : e \in Range(BlockInters(d, j))}
+  IN CASE b.t = "type" -> \E x \in bodies : b.name \in BodyRefs(x)
+       [] b.t = "enum" -> \E x \in bodies : b.name \in BodyEnums(x)
+       [] b.t = "tag"  -> b.name \in tags
+       [] OTHER -> FALSE
+FaultSites(d, f) ==
+  CASE f.f = "undefined" -> {j \in 1..Len(d) : j # f.i /\ RefersTo(d, j, d[f.i])}
+    [] f.f \in {"undefined_new", "second_info"} -> {Len(d) + 1}
+    [] f.f \in {"dup_name", "dup_url", "similar_path"} -> {f.i, Len(d) + 1}
+    [] OTHER -> {f.i}
+
+\* fresh, independent declarations of every kind (names and paths outside the generator's alphabets)
+FreshBlocks ==
+  { [t |-> "server", name |-> "@zs", annot |-> "fresh", base |-> "http://fresh"],
+    [t |-> "type", name |-> "@zt", annot |-> "", body |-> Body("obj", "", << P("zk", "str", "") >>, << >>)],
+    [t |-> "type", name |-> "@zr", annot |-> "fresh", body |-> Body("regex", "", << >>, << >>)],
+    [t |-> "enum", name |-> "@ze", annot |-> ""],
+    [t |-> "tag", name |-> "@zg", annot |-> "Fresh tag", desc |-> ""],
+    [t |-> "macro", name |-> "@zm", items |-> << [t |-> "type", name |-> "@zin", annot |-> "", body |-> Body("int", "", << >>, << >>)] >>],
+    [t |-> "method", m |-> Meth("GET", <<"zz", "{zp}">>, "", "fresh", << >>, "", NoSpec, FALSE,
+                                 << Resp("200", "", BodySpec("param", Body("any", "", << >>, << >>)), FALSE) >>, << >>)],
+    [t |-> "url", path |-> <<"zu">>, tags |-> << >>, pathdecl |-> << >>,
+     methods |-> << Meth("POST", << >>, "note", "", << >>, "", BodySpec("inline", Body("str", "", << >>, << >>)), FALSE,
+                         << Resp("201", "", BodySpec("child", Body("int", "", << >>, << >>)), TRUE) >>, << >>) >>],
+    [t |-> "rpc", path |-> <<"zrpc">>, tags |-> << >>,
+     methods |-> << RpcMeth("zmeth", "", "", << >>, Body("obj", "", << P("zk", "int", "") >>, << >>), NoBody) >>] }
+InsertAt2(d, pos, b) == SubSeq(d, 1, pos) \o << b >> \o SubSeq(d, pos + 1, Len(d))
+
+\* random transformation parameters for the relational checks, chosen by TLC
+Tx(d) ==
+  LET n    == Len(d)
+      from == RandomElement(1..n)
+      to   == RandomElement(from..n)
+      B    == RandomElement({{k} : k \in AllKinds} \cup {{RandomElement(AllKinds), RandomElement(AllKinds)}}
+                            \cup {{RandomElement(AllKinds), RandomElement(AllKinds), RandomElement(AllKinds), RandomElement(AllKinds)}})
+      fc   == FaultChoices(d)
+      f    == RandomElement(fc)
+  IN [ range |-> [from |-> from, to |-> to, defat |-> RandomElement(0..n)],
+       ban |-> B, banned_at |-> FirstBanned(d, B \ {"MACRO", "PASTE", "INCLUDE"}), kinds |-> KindsOf(d),
+       adds |-> {LET pos == RandomElement(0..n) IN
+                   [b |-> b, pos |-> pos, keys |-> CatKeys(Catalog(InsertAt2(d, pos, b))) \ CatKeys(Catalog(d))]
+                 : b \in FreshBlocks},
+       removable |-> {[i |-> i, keys |-> CatKeys(Catalog(d)) \ CatKeys(Catalog(RemoveAt2(d, i)))] : i \in Removable(d)},
+       fault |-> f, fault_sites |-> FaultSites(d, f) ]
+
 Emit == phase = "done" =>
           PrintT("MBT " \o ToJson([doc |-> doc, valid |-> Valid(doc),
-                                   cat |-> IF Valid(doc) THEN << Catalog(doc) >> ELSE << >>]))
+                                   cat |-> IF Valid(doc) THEN << Catalog(doc) >> ELSE << >>,
+                                   tx  |-> IF Valid(doc) THEN << Tx(doc) >> ELSE << >>]))
 =============================================================================
